@@ -247,16 +247,31 @@ def tryChoose (inner : Inner) (lb : LB) (c? : Option Path) (d : Nat) : Option Ho
     if Gen.Subset.tryReject e.isSome (e.elim false entryActive) then (none, false)
     else (inner ((e.bind Trie.lb).getD []) d, true)
 
+/-- `if sslb.fallbackSubset == nil { return nil }; return sslb.fallbackSubset.LoadBalancer().ChooseHost(ctx)` -/
+def fallbackChoice (inner : Inner) (lb : LB) (d2 : Nat) : Option Host :=
+  match lb.fallback with
+  | none => none
+  | some f => inner f d2
+
 /-- `ChooseHost`; `d1`, `d2` are the states of the subset's (or full) and the fallback's inner balancers -/
 def chooseHost (inner : Inner) (lb : LB) (q : Query) (d1 d2 : Nat) : Option Host :=
-  let viaFallback : Option Host := match lb.fallback with
-    | none => none
-    | some f => inner f d2
   match q with
-  | .nilCtx => viaFallback
+  | .nilCtx => fallbackChoice inner lb d2
   | q =>
     let r := tryChoose inner lb q.criteria d1
-    if Gen.Subset.chooseAccept r.2 r.1.isSome then r.1 else viaFallback
+    if Gen.Subset.chooseAccept r.2 r.1.isSome then r.1 else fallbackChoice inner lb d2
+
+/-- the fallback branch of `HostNum` -/
+def fallbackNum (lb : LB) : Int :=
+  match lb.fallback with
+  | some f => f.length
+  | none => 0
+
+/-- the fallback branch of `IsExistsHosts` -/
+def fallbackExists (lb : LB) : Bool :=
+  match lb.fallback with
+  | some f => decide (f.length > 0)
+  | none => false
 
 /-- `HostNum(metadata)` (plain balancers answer `hosts.Size()`) -/
 def hostNum (lb : LB) (c? : Option Path) : Int :=
@@ -265,9 +280,7 @@ def hostNum (lb : LB) (c? : Option Path) : Int :=
   | some c =>
     let e := findSubset lb.subsets c
     if Gen.Subset.hostNumAccept e.isSome (e.elim false entryActive) then e.elim 0 entryHostNum
-    else match lb.fallback with
-      | some f => f.length
-      | none => 0
+    else fallbackNum lb
 
 /-- `IsExistsHosts(metadata)` (plain balancers answer `hosts.Size() > 0`) -/
 def isExists (lb : LB) (c? : Option Path) : Bool :=
@@ -276,9 +289,7 @@ def isExists (lb : LB) (c? : Option Path) : Bool :=
   | some c =>
     let e := findSubset lb.subsets c
     if Gen.Subset.existsAccept e.isSome (e.elim false entryActive) then true
-    else match lb.fallback with
-      | some f => decide (f.length > 0)
-      | none => false
+    else fallbackExists lb
 
 /-! ### round-robin inner balancer (`roundRobinLoadBalancer.ChooseHost`), as written -/
 
